@@ -1220,6 +1220,13 @@ def mon_connection_loss(tr, pid='C11', affected=('c', 's'), settled_mark='settle
             out.append(viol('subscriber_left_hanging', '%s:hanging_after_close:%s' % (pid, spec['k']), uid=uid, k=spec['k'],
                             fault=fkind, issued='after the loss, before close()'))
     for side in affected:
+        # an endpoint that has been closed is not watched any more: no keepalive-timeout notification after close() returned
+        returned = next((e['seq'] for e in log if e['ev'] == 'close_returned' and e['side'] == side), None)
+        if returned is not None:
+            late_to = [e for e in log if e['ev'] == 'on_keepalive_timeout' and e['side'] == side and e['seq'] > returned]
+            if late_to:
+                out.append(viol('keepalive_timeout_reported_after_close', '%s:timeout_after_close' % pid, side=side, n=len(late_to),
+                                fault=fkind))
         closes = [e for e in log if e['ev'] == 'on_close' and e['side'] == side]
         if len(closes) != 1:
             out.append(viol('on_close_count', '%s:on_close:%s' % (pid, 'missing' if not closes else 'repeated'),
